@@ -210,6 +210,57 @@ Theorem C19_ffi_equiv_quant :
 Proof. exact ffi_equiv_quant. Qed.
 Print Assumptions C19_ffi_equiv_quant.
 
+(** cofactors: the children of the root as the model computes them; they are the Shannon
+    cofactors w.r.t. the top variable (BDD / BCDD), subset1 / subset0 w.r.t. it (ZBDD) *)
+Theorem C19_ffi_equiv_cofactors : forall (st : state) (dt de a : nat) (t : tt) (st' : state) (r : ret),
+  lookup a (st_funs st) = Some (HVal t) -> step st (CCofactors dt de a) = Done (st', r) ->
+  r = match cofactors_of (st_kind st) (st_nv st) (st_l2v st) t with
+      | Some (ct, ce) => RetHH (HVal ct) (HVal ce)
+      | None => RetHH HInv HInv
+      end.
+Proof. exact ffi_equiv_cofactors. Qed.
+Print Assumptions C19_ffi_equiv_cofactors.
+
+Theorem C19_ffi_equiv_cofactor : forall (st : state) (hi : bool) (d a : nat) (t : tt) (st' : state) (r : ret),
+  lookup a (st_funs st) = Some (HVal t) -> step st (CCofactor hi d a) = Done (st', r) ->
+  r = match cofactors_of (st_kind st) (st_nv st) (st_l2v st) t with
+      | Some (ct, ce) => RetH (HVal (if hi then ct else ce))
+      | None => RetH HInv
+      end.
+Proof. exact ffi_equiv_cofactor. Qed.
+Print Assumptions C19_ffi_equiv_cofactor.
+
+Theorem C19_cofactors_of_spec : forall (k : kind3) (n : nat) (l2v : list nat) (t ct ce : tt),
+  cofactors_of k n l2v t = Some (ct, ce) ->
+  exists v, top_var n k l2v (fn n t) = Some v /\
+    (forall x, fn n ct x = child_s k (fn n t) v true (trunc n x)) /\
+    (forall x, fn n ce x = child_s k (fn n t) v false (trunc n x)).
+Proof. exact cofactors_of_spec. Qed.
+Print Assumptions C19_cofactors_of_spec.
+
+(** substitution: DD/Sem.v's simultaneous substitution with the object's pairs *)
+Theorem C19_ffi_equiv_substitute :
+  forall (st : state) (d a s : nat) (sb : subst_obj) (ta : tt) (st' : state) (r : ret),
+  lookup a (st_funs st) = Some (HVal ta) -> lookup s (st_subs st) = Some sb ->
+  step st (CSubstitute d a (Some s) false) = Done (st', r) ->
+  exists tr, r = RetH (HVal tr) /\
+    forall x, fn (st_nv st) tr x
+      = subst_s (combine (sb_vars sb) (map (fn (st_nv st)) (sb_reps sb))) (fn (st_nv st) ta) (trunc (st_nv st) x).
+Proof. exact ffi_equiv_substitute. Qed.
+Print Assumptions C19_ffi_equiv_substitute.
+
+(** oxidd_zbdd_make_node with valid operands: lo ∪ {x ∪ {v} | x ∈ hi}; hi and lo are consumed *)
+Theorem C19_ffi_equiv_make_node :
+  forall (st : state) (d var hi lo : nat) (tv th tl : tt) (st' : state) (r : ret),
+  lookup var (st_funs st) = Some (HVal tv) -> lookup hi (st_funs st) = Some (HVal th) ->
+  lookup lo (st_funs st) = Some (HVal tl) ->
+  step st (CMakeNode d var hi lo false) = Done (st', r) ->
+  exists v tr, singleton_var (st_nv st) tv = Some v /\ r = RetH (HVal tr) /\
+    (forall x, fn (st_nv st) tr x = mknode_s v (fn (st_nv st) th) (fn (st_nv st) tl) (trunc (st_nv st) x)) /\
+    st_funs st' = (d, HVal tr) :: remove_slot lo (remove_slot hi (st_funs st)).
+Proof. exact ffi_equiv_make_node. Qed.
+Print Assumptions C19_ffi_equiv_make_node.
+
 (** everything unref'ed: nothing is referenced any more; with the manager handles released too
     the manager is gone *)
 Theorem C19_ledger_zero : forall (k : kind3) (cs : list call) (st : state),
